@@ -59,3 +59,42 @@ func Harness_C01_visit_main() {
 		verifAssert("specification-applied-exactly-no-flow-when-result-not-listed-for-the-argument", listed || !reported)
 	}
 }
+
+// Harness_C05_on_demand_equivalence (also C01: parameter passing and returns through a summarised callee):
+// `t0 = source(); t1 = other(); r = h(t0, t1); sink(r)` with `h(a, b) { v = op(x); return v }`: the flow is
+// reported exactly when x is the parameter that receives the source, and the verdict is the same whether h was
+// summarised before the traversal or is summarised on demand by the visitor.
+func Harness_C05_on_demand_equivalence() {
+	op := verifPick("op", 0, 3)
+	operand := verifPick("operand", 0, 1)
+	verdict := func(onDemand bool) (bool, bool) {
+		w := df.VerifNewInterWorld(op, operand, onDemand)
+		if w.Err != nil || w.Source == nil || w.Sink == nil || w.H == nil {
+			return false, false
+		}
+		spec := &config.TaintSpec{
+			Sources: []config.CodeIdentifier{config.NewCodeIdentifier(config.CodeIdentifier{Package: "example.com/p", Method: "^source$"})},
+			Sinks:   []config.CodeIdentifier{config.NewCodeIdentifier(config.CodeIdentifier{Package: "example.com/p", Method: "^sink$"})},
+		}
+		v := NewVisitor(spec)
+		v.Visit(w.State, df.NodeWithTrace{Node: w.Source})
+		for sinkNode, sources := range v.taints.Sinks {
+			if sinkNode.Instr == w.Sink.CallSite() {
+				for src := range sources {
+					if src.Instr == w.Source.CallSite() {
+						return true, true
+					}
+				}
+			}
+		}
+		return false, true
+	}
+	verifTerminatesWithin("forward-visit-terminates", 8000000)
+	eager, ok1 := verdict(false)
+	lazy, ok2 := verdict(true)
+	verifTerminated()
+	verifReach("both-modes-run")
+	verifAssert("worlds-built", ok1 && ok2)
+	verifAssert("flow-through-callee-body-reported-iff-result-derives-from-the-tainted-parameter", eager == (operand == 0))
+	verifAssert("summarize-on-demand-does-not-change-the-verdict", eager == lazy)
+}
